@@ -55,6 +55,21 @@ Theorem C11_auto_order_partial : forall isdigit int_of fx, O_footnotes fx ->
 Proof. exact auto_order_sorted. Qed.
 Print Assumptions C11_auto_order_partial.
 
+(* PARTIAL (footnote_sort = True, at most 999 auto-numbered references - SortFootnotes uses the key
+   999 for "not referenced"): a referenced definition is numbered before any unreferenced one, so
+   together with the theorem above the k-th label referenced gets the k-th free number *)
+Theorem C11_referenced_first_partial : forall isdigit int_of fx, O_footnotes fx ->
+  forall ft d r, run isdigit int_of fx true ft d = Ok r ->
+  (length (auto_ref_labels isdigit r) <= 999)%nat ->
+  forall fa fb ka kb i,
+    In fa (x_foots r) -> In fb (x_foots r) ->
+    fo_num fa = Some ka -> fo_num fb = Some kb ->
+    index_of (lbl fa) (auto_ref_labels isdigit r) = Some i ->
+    index_of (lbl fb) (auto_ref_labels isdigit r) = None ->
+    ka < kb.
+Proof. exact referenced_first. Qed.
+Print Assumptions C11_referenced_first_partial.
+
 (* REFUTED for footnote_sort = False: x[^b] y[^a] with definitions a, b numbers a = 1, b = 2
    although b is referenced first (SortFootnotes returns early under the same switch) *)
 Theorem C11_auto_order_refuted :
